@@ -173,3 +173,203 @@ def tie_nof(ctx, ncases=None):
         distribution=dict(kinds=dist, cases_with_mode_kind=stat_modes, n_modes={k: sum(1 for c in kept if len(c["modes"]) == k) for k in (1, 2, 3, 4)}),
         disagreements=disagreements,
     )
+
+
+# ---------------------------------------------------------------------------
+# C07: apply_mask_to_operator  (model PV.NOF.Mask)
+
+from pymablock.second_quantization import apply_mask_to_operator  # noqa: E402
+
+_NSYM = nc.sympy.Symbol("n", positive=True, integer=True)
+MASK_HEADER = nc.COQ_HEADER + "Require Import PV.NOF.Mask.\n"
+
+
+def rand_pat(rng, binary):
+    """condition entry: ["eq", k] | ["gt", k] (k + n) | ["lt", k] (k - n)"""
+    if binary:
+        return ["eq", rng.choice([0, 0, 1, -1])]
+    r = rng.random()
+    if r < 0.7:
+        return ["eq", rng.choice([0, 0, 0, 1, -1, 2, -2, 3])]
+    return [rng.choice(["gt", "lt"]), rng.choice([-1, 0, 0, 1, 2])]
+
+
+def pat_opp(p):
+    return {"eq": ["eq", -p[1]], "gt": ["lt", -p[1]], "lt": ["gt", -p[1]]}[p[0]]
+
+
+def gen_mask_case(rng):
+    modes = nc.rand_modes(rng, 1, 3)
+    x = nc.rand_sum(rng, modes, 4, 3)
+    y = nc.rand_sum(rng, modes, 3, 3)
+    ops = nc.make_ops(modes)
+    # conditions: some taken from the keys that actually occur (so that the mask selects something)
+    keys = [tuple(int(p) for p in k) for k, _ in nc.build_impl(["add", x, y], ops).args[1]]
+    conds = []
+    for _ in range(rng.choice([0, 1, 2, 2, 3])):
+        if keys and rng.random() < 0.85:
+            k = rng.choice(keys)
+            c = [["eq", v] for v in k]
+            if rng.random() < 0.3:
+                i = rng.randrange(len(modes))
+                if modes[i] in "BL":
+                    c[i] = ["gt", k[i] - 1] if rng.random() < 0.5 else ["lt", k[i] + 1]
+        else:
+            c = [rand_pat(rng, m in "SF") for m in modes]
+        conds.append(c)
+    if rng.random() < 0.4:  # close under negation of powers
+        conds = conds + [[pat_opp(p) for p in c] for c in conds]
+    # dict keys must be distinct
+    uniq = []
+    for c in conds:
+        if c not in uniq:
+            uniq.append(c)
+    return dict(modes=modes, x=x, y=y, conds=uniq, keep=rng.random() < 0.5)
+
+
+def sym_pat(p):
+    return {"eq": nc.sympy.Integer(p[1]), "gt": p[1] + _NSYM, "lt": p[1] - _NSYM}[p[0]]
+
+
+def impl_mask(nof, conds, keep, ops):
+    M = nc.sympy.Matrix([[nof]]) if not isinstance(nof, nc.sympy.MatrixBase) else nof
+    if conds:
+        mask = nc.NumberOrderedForm(ops, {tuple(sym_pat(p) for p in c): nc.sympy.S.One for c in conds})
+    else:
+        mask = nc.sympy.S.Zero
+    r = apply_mask_to_operator(M, nc.sympy.Matrix([[mask]]), keep=keep)[0, 0]
+    if not isinstance(r, nc.NumberOrderedForm):
+        r = nc.NumberOrderedForm.from_expr(nc.sympy.sympify(r), operators=ops)
+        if r.args[1] and all(c == 0 for _, c in r.args[1]):  # the literal 0 of an untouched matrix element
+            r = nc.NumberOrderedForm(ops, {}, validate=False)
+    return nc.expand_to(r, ops)
+
+
+def _mask_worker(case):
+    try:
+        ops = nc.make_ops(case["modes"])
+        x = nc.build_impl(case["x"], ops)
+        r = impl_mask(x, case["conds"], case["keep"], ops)
+        return dict(ok=True, keys=[[int(p) for p in k] for k, _ in r.args[1]], nterms=len(x.args[1]))
+    except Exception as e:  # noqa: BLE001
+        return dict(ok=False, err="%s: %s" % (type(e).__name__, str(e)[:300]))
+
+
+def coq_pat(p):
+    return "(%s %s)" % ({"eq": "PEq", "gt": "PGt", "lt": "PLt"}[p[0]], nc.cz(p[1]))
+
+
+def coq_mask_case(case, keys):
+    return "check_mask %s %s %s %s %s" % (
+        nc.coq_sig(case["modes"]),
+        nc.coq_tree(case["x"]),
+        nc.clist([nc.clist([coq_pat(p) for p in c]) for c in case["conds"]]),
+        "true" if case["keep"] else "false",
+        nc.clist([nc.clist([nc.cz(v) for v in k]) for k in keys]),
+    )
+
+
+def mask_str(c):
+    def ps(p):
+        return {"eq": "%d", "gt": "%d+n", "lt": "%d-n"}[p[0]] % p[1]
+    return "modes=%s keep=%s x=%s mask=%s" % ("".join(c["modes"]), c["keep"], nc.tree_str(c["x"], c["modes"]),
+                                             [tuple(ps(p) for p in cond) for cond in c["conds"]])
+
+
+def tie_mask(ctx, ncases=None):
+    n = ncases or ctx.n(80, 1500)
+    cases = [gen_mask_case(ctx.rng) for _ in range(n)]
+    with multiprocessing.Pool(8 if ctx.quick else 16) as pool:
+        res = pool.map(_mask_worker, cases, chunksize=1)
+    terms, kept, disagreements = [], [], []
+    for c, r in zip(cases, res):
+        if not r["ok"]:
+            disagreements.append(dict(what="apply_mask_to_operator raised: " + mask_str(c), input=dict(kind="mask", case=c), impl=r["err"], model="Ok"))
+            continue
+        terms.append(coq_mask_case(c, r["keys"]))
+        kept.append((c, r))
+    bad = core.coq_eval_cases("k_mask", MASK_HEADER, terms, shard=max(10, len(terms) // 8 + 1), jobs=8 if ctx.quick else 16)
+    for i in bad:
+        c, r = kept[i]
+        disagreements.append(dict(what="kept keys differ between model and apply_mask_to_operator: " + mask_str(c),
+                                  input=dict(kind="mask", case=c), impl=r["keys"], model="check_mask = false"))
+    nontrivial = {core.canon([c["modes"], c["x"], c["conds"], c["keep"]]) for c, r in kept if 0 < len(r["keys"]) < r["nterms"]}
+    return dict(
+        cases=len(kept),
+        nontrivial=len(nontrivial),
+        rule="distinct (modes, x, mask, keep) where the mask keeps some but not all terms of x",
+        samples=[mask_str(c) for c, _ in kept[:4]],
+        distribution=dict(symbolic=sum(1 for c, _ in kept if any(p[0] != "eq" for cond in c["conds"] for p in cond)),
+                          empty_mask=sum(1 for c, _ in kept if not c["conds"]), keep_true=sum(1 for c, _ in kept if c["keep"])),
+        disagreements=disagreements,
+    )
+
+
+def mask_law_failures(case):
+    """additivity, idempotence, keep/discard partition, adjoint (negation-closed masks): implementation only,
+    compared as term dictionaries evaluated on a grid (a missing key = coefficient 0)."""
+    import random as _r
+
+    ops = nc.make_ops(case["modes"])
+    conds, keep = case["conds"], case["keep"]
+    x, y = nc.build_impl(case["x"], ops), nc.build_impl(case["y"], ops)
+    grid = nc.rand_grid(_r.Random(core.canon(case)), case["modes"], 4)
+
+    def same(a, b):
+        oa, ob = nc.observe(a, ops, grid), nc.observe(b, ops, grid)
+        zero = [(0, 0)] * len(grid)
+        for k in set(oa) | set(ob):
+            va = [(0, 0) if v is None else tuple(v) for v in oa.get(k, zero)]
+            vb = [(0, 0) if v is None else tuple(v) for v in ob.get(k, zero)]
+            if va != vb:
+                return False
+        return True
+
+    m = lambda z, kp=keep: impl_mask(z, conds, kp, ops)  # noqa: E731
+    fails = []
+    if not same(m(x + y), m(x) + m(y)):
+        fails.append("additivity")
+    if not same(m(m(x)), m(x)):
+        fails.append("idempotence")
+    if not same(m(x, True) + m(x, False), nc.expand_to(x, ops)):
+        fails.append("keep=True part + keep=False part != operator")
+    closed = all([pat_opp(p) for p in c] in conds for c in conds)
+    if closed and not same(m(nc.Dagger(x)), nc.Dagger(m(x))):
+        fails.append("does not commute with the adjoint although the mask is closed under negation")
+    return [dict(what="apply_mask_to_operator: %s fails for %s" % (f, mask_str(case)), input=dict(kind="mask", case=case)) for f in fails]
+
+
+def _mask_law_worker(case):
+    try:
+        return mask_law_failures(case)
+    except Exception as e:  # noqa: BLE001
+        return [dict(what="oracle_mask crashed on %s: %s: %s" % (mask_str(case), type(e).__name__, str(e)[:200]), input=dict(kind="mask", case=case), crash=True)]
+
+
+def oracle_mask(ctx, ncases=None):
+    n = ncases or ctx.n(40, 800)
+    cases = [gen_mask_case(ctx.rng) for _ in range(n)]
+    with multiprocessing.Pool(8 if ctx.quick else 16) as pool:
+        res = pool.map(_mask_law_worker, cases, chunksize=1)
+    return dict(
+        evaluations=4 * len(cases),
+        nontrivial=len({core.canon(c) for c in cases if c["conds"]}),
+        rule="distinct (modes, x, y, mask, keep) with a non-empty mask; four laws each",
+        samples=[mask_str(c) for c in cases[:3]],
+        failures=[f for r in res for f in r],
+    )
+
+
+def replay_mask(case):
+    print(mask_str(case))
+    r = _mask_worker(case)
+    if not r["ok"]:
+        print("implementation raised:", r["err"])
+        return True
+    print("kept keys:", r["keys"])
+    bad = core.coq_eval_cases("k_mask_replay", MASK_HEADER, [coq_mask_case(case, r["keys"])])
+    print("model agrees" if not bad else "model DISAGREES")
+    laws = mask_law_failures(case)
+    for f in laws:
+        print(f["what"])
+    return bool(bad) or bool(laws)
